@@ -768,7 +768,7 @@ func RunC18(cfg Config) (*ShardResult, error) {
 	// long lists: outputs of tens of kilobytes, so that buffering layers (4 KiB bufio buffers, 64 KiB pipes)
 	// inside a writer are crossed several times before a fault arrives
 	for _, f := range []string{"srt", "ssa"} {
-		d := corpus.Large(f, root.Derive("c18-large-"+f, 0), 24000)
+		d := corpus.Large(f, root.Derive("c18-large-"+f, 0), 60000) // > 512 cues
 		sources = append(sources, ListSource{Doc: d.Name, Reader: f, Data: d.Data})
 	}
 	for si, src := range sources {
